@@ -490,7 +490,7 @@ impl Check for C13 {
         out
     }
     fn rule(&self) -> String {
-        "one evaluation = one (file, cut offset k, reading-protocol variant): the file is produced by the real noodles writer from a generated model, the simulated disk keeps bytes [0,k), a fresh reader reads to EOF/error. Files <= 6000 bytes are cut at EVERY offset 0..=len (listed under exhaustive_subspaces); larger files at every offset within 40 bytes of each structural boundary (BGZF member starts, record starts, container starts) plus 200 seeded offsets. Oracle: delivered items are a prefix of the written ones (bytes for BGZF), no panic, k=len reproduces everything, raw BAM/BCF record streams cut inside a record and CRAM files cut inside a container must end in Err; binary indexes: Err or equal index. distinct_nontrivial = distinct (file hash, k < len, variant)".into()
+        "one evaluation = one (file, cut offset k, reading-protocol variant, reader family sync|async): the file is produced by the real noodles writer from a generated model, the simulated disk keeps bytes [0,k), a fresh reader reads to EOF/error. Files <= 6000 bytes are cut at EVERY offset 0..=len (listed under exhaustive_subspaces); larger files at every offset within 40 bytes of each structural boundary (BGZF member starts, record starts, container starts) plus 200 seeded offsets. Oracle: delivered items are a prefix of the written ones (bytes for BGZF), no panic, k=len reproduces everything, raw BAM/BCF record streams cut inside a record and CRAM files cut inside a container must end in Err; binary indexes: Err or equal index. distinct_nontrivial = distinct (file hash, k < len, variant)".into()
     }
     fn assumptions(&self) -> Vec<String> {
         vec![
@@ -499,7 +499,7 @@ impl Check for C13 {
         ]
     }
     fn components(&self) -> Value {
-        json!({"real": ["all noodles readers and writers of the listed kinds"], "stub": ["disk (SimRead with cut = crash point)"]})
+        json!({"real": ["all noodles sync readers and writers of the listed kinds", "their async reader twins (tokio current_thread runtime, tokio-util codec, async inflate jobs through hook H2)"], "stub": ["disk (SimRead / SimAsyncRead with cut = crash point; a quarter of the cases deliver the surviving bytes in short reads / partial polls)"]})
     }
     fn expected_probes(&self) -> Vec<&'static str> {
         vec![
@@ -510,6 +510,8 @@ impl Check for C13 {
             "fault_free_configuration",
             "files_cut_at_every_offset",
             "files_cut_near_boundaries",
+            "async_reader_on_truncated_file",
+            "truncated_file_read_through_short_reads",
         ]
     }
 }
